@@ -256,7 +256,7 @@ func runC12(c *core.Ctx) {
 	}
 
 	// ---- R12.6 allocator owns buffer changes
-	checkAllocatorOwnsBuffer(c)
+	checkAllocatorOwnsBuffer(c, "R12.6")
 }
 
 func boolConst(k *ssa.Const) bool {
@@ -592,18 +592,18 @@ func fieldsStoredLocal(c *core.Ctx, fn *ssa.Function, named *types.Named, out ma
 	}
 }
 
-func checkAllocatorOwnsBuffer(c *core.Ctx) {
+func checkAllocatorOwnsBuffer(c *core.Ctx, rule string) {
 	wp := c.Pkg("internal/wasm")
 	memNamed, _ := wp.Types.Scope().Lookup("MemoryInstance").Type().(*types.Named)
 	bufField := structField(c, "internal/wasm", "MemoryInstance", "Buffer")
 	expField := structField(c, "internal/wasm", "MemoryInstance", "expBuffer")
 	if memNamed == nil || bufField == nil || expField == nil {
-		c.Undecided("R12.6", "anchors", 0, "MemoryInstance.Buffer / expBuffer not found")
+		c.Undecided(rule, "anchors", 0, "MemoryInstance.Buffer / expBuffer not found")
 		return
 	}
 	fn := c.SSA().FuncValue(core.ImplMethod(wp.Types, memNamed, "Grow"))
 	if fn == nil {
-		c.Undecided("R12.6", "Grow", 0, "MemoryInstance.Grow not found")
+		c.Undecided(rule, "Grow", 0, "MemoryInstance.Grow not found")
 		return
 	}
 	isField := func(v ssa.Value, f *types.Var) bool {
@@ -654,13 +654,13 @@ func checkAllocatorOwnsBuffer(c *core.Ctx) {
 			n++
 			inAlloc := guardedBy(b, expTest)
 			notAlloc := guardedBy(b, func(cond ssa.Value) int { return -expTest(cond) })
-			c.Check(inAlloc || notAlloc, "R12.6", fmt.Sprintf("Grow buffer change #%d", n), in.Pos(),
+			c.Check(inAlloc || notAlloc, rule, fmt.Sprintf("Grow buffer change #%d", n), in.Pos(),
 				"inside the allocator branch or guarded by expBuffer == nil",
 				"the memory buffer is changed at "+c.Pos(in.Pos())+" on a path that has not tested expBuffer: with a custom memory allocator the buffer grows without LinearMemory.Reallocate (new pages are not the allocator's, may be non-zero)")
 		}
 	}
 	if n == 0 {
-		c.Undecided("R12.6", "Grow", fn.Pos(), "no buffer change found in Grow")
+		c.Undecided(rule, "Grow", fn.Pos(), "no buffer change found in Grow")
 	}
 	_ = ast.Inspect
 }
